@@ -189,6 +189,26 @@ def gen_cases(rng, tier):
         h = ['t3'] + pre + ['d30', 't5', 'u30', 't30', 'u31', 'u32', 't600']
         cases.append({'id': 'c10-active-%d' % i, 'cfg': cfg, 'hist': h, 'sub': 'ksim', 'active': active, 'mech': mech,
                       'tags': {'kind': 'active-key-by-' + mech, 'form': form}})
+    # key-history / key-timing see every key kanata has output, whatever produced it: a plain key, a one-shot, the hold of a
+    # tap-hold, a virtual key, a multi, a macro (deterministic: every mechanism x both leaves x both answers)
+    HMECH = {
+        'plain': ('lsft', ['d31', 't5', 'u31']),
+        'one-shot': ('(one-shot 2000 lsft)', ['d31', 't5', 'u31']),
+        'one-shot-release': ('(one-shot-release 2000 lsft)', ['d31', 't5', 'u31']),
+        'tap-hold-hold': ('(tap-hold 0 30 z lsft)', ['d31', 't60', 'u31']),
+        'virtual-key': ('(on-press tap-vkey vk)', ['d31', 't5', 'u31']),
+        'multi': ('(multi lctl lsft)', ['d31', 't5', 'u31']),
+        'macro': ('(macro lsft)', ['d31', 't5', 'u31']),
+    }
+    hj = 0
+    for mech in sorted(HMECH):
+        act, pre = HMECH[mech]
+        for leaf, yes in (('(key-history lsft 1)', True), ('(key-history c 1)', False), ('(key-timing 1 lt 100)', True), ('(key-timing 1 gt 100)', False)):
+            cfg = '(defsrc a s d)\n(deflayer l0 (switch (%s) y break () x break) %s c)\n(defvirtualkeys vk lsft)' % (leaf, act)
+            h = ['t3', 'd32', 't5', 'u32', 't500'] + pre + ['t10', 'd30', 't5', 'u30', 't2100']
+            cases.append({'id': 'c10-hist-%d' % hj, 'cfg': cfg, 'hist': h, 'sub': 'ksim', 'active': yes, 'mech': 'history-after-' + mech,
+                          'tags': {'kind': 'key-history-by-' + mech, 'leaf': leaf.split(' ')[0][1:]}})
+            hj += 1
     # (input real K): K is active while it is physically held, whatever its action is (key, custom action, layer, macro); a position
     # whose action leaves no state behind (XX) is not visible to kanata as held and is not judged
     j = 0
